@@ -50,7 +50,8 @@ func registerNatives(e *Engine) map[string]nativeFn {
 		return fr.vc.havocResults(st, c.Signature())
 	}
 	for _, f := range []string{"fmt.Sprintf", "fmt.Sprint", "fmt.Sprintln", "fmt.Printf", "fmt.Println", "fmt.Fprintf", "log.Printf", "log.Println", "log.Print",
-		"(*log.Logger).Printf", "(*log.Logger).Println", "(*log.Logger).Print", "fmt.Fprintln", "fmt.Fprint"} {
+		"(*log.Logger).Printf", "(*log.Logger).Println", "(*log.Logger).Print", "fmt.Fprintln", "fmt.Fprint",
+		"(" + e.modPath + "/pkg/flog.Verbose).Printf", "(" + e.modPath + "/pkg/flog.Verbose).Println", "(" + e.modPath + "/pkg/flog.Verbose).Print"} {
 		n[f] = strHavoc
 	}
 	// time
